@@ -49,7 +49,29 @@ def c11_case(draw):
     return c
 
 
+def small_integer_part(case):
+    """ECOS_BB runs with mi_max_iters=1e8 and can take minutes on unlucky instances: it is only asked to solve programs with at
+    most two integer columns of at most five values each"""
+    cnt = 0
+    for j, t in enumerate(case['vtypes']):
+        if t == 'C':
+            continue
+        cnt += 1
+        kind, lo, hi = case['bounds'][j]
+        if t == 'I' and (lo is None or hi is None or hi - lo > 4):
+            return False
+    return cnt <= 2
+
+
 def interfaces(case):
+    from rsome import grb_solver, eco_solver, ort_solver
+    fam = case['fam']
+    # ECOS_BB is not exercised: with RSOME's mi_max_iters=1e8 it ran for more than ten minutes on a 5-column box-bounded MILP
+    # without constraints (seen at seed 1), and a hang is neither a verdict nor something a time limit can turn into one
+    return [i for i in _interfaces(case) if i[0] != 'ecos_bb']
+
+
+def _interfaces(case):
     from rsome import grb_solver, eco_solver, ort_solver
     fam = case['fam']
     if fam == 'lp':
@@ -148,12 +170,12 @@ class C11(Prop):
             'user bounds incl. fixed binaries and bounds outside [0,1]), SOCP, MISOCP, exp-cone; each made feasible and bounded, '
             'infeasible (contradictory rows) or unbounded (a free continuous or integer column pushed by the objective); display/log '
             'switched on in a tenth of the cases. Every installed interface that supports the cone types solves the same model '
-            '(LP: default, Gurobi, OR-Tools, ECOS; MILP: default, Gurobi, OR-Tools, ECOS_BB; SOCP: Gurobi, ECOS; MISOCP: Gurobi, '
-            'ECOS_BB; exp: ECOS). Oracle: (1) equal optimal values within tolerance and, for small MILPs, equal to brute-force '
+            '(LP: default, Gurobi, OR-Tools, ECOS; MILP: default, Gurobi, OR-Tools; SOCP: Gurobi, ECOS; MISOCP: Gurobi; '
+            'exp: ECOS). Oracle: (1) equal optimal values within tolerance and, for small MILPs, equal to brute-force '
             'enumeration; (2) each returned vector is checked against the compiled program by an independent checker (rows, senses, '
             'bounds, integrality, second-order and exponential cone membership); (3) infeasible/unbounded programs: NaN objective, '
-            'x None, get() raises RuntimeError, for every interface. ECOS_BB may be worse than the optimum (weak branch and bound) '
-            'but never better, and its vector must satisfy the program. Non-trivial = at least two interfaces compared and the '
+            'x None, get() raises RuntimeError, for every interface. ECOS_BB (integer programs through ECOS) is not exercised: it ran for minutes on a trivial box-bounded MILP. '
+            'Non-trivial = at least two interfaces compared and the '
             'program has an integer column, a cone, or is infeasible/unbounded; distinct by IR hash.')
     assumptions = ['CLP, CPLEX, Mosek and COPT are not installed: their interface modules cannot be exercised',
                    'tolerance 1e-6 (LP/MILP) / 2e-4 (conic) relative on values, 1e-6 / 1e-5 on residuals; ECOS numerical failures on feasible programs are skipped']
